@@ -31,11 +31,11 @@ func (config BridgeConfig) Validate(ac address.Codec) error {
 		return errors.Wrapf(sdkerrors.ErrInvalidRequest, "batch submitter must be set")
 	}
 
-	if config.FinalizationPeriod == time.Duration(0) {
+	if config.FinalizationPeriod <= time.Duration(0) {
 		return errors.Wrapf(sdkerrors.ErrInvalidRequest, "finalization period must be greater than 0")
 	}
 
-	if config.SubmissionInterval == time.Duration(0) {
+	if config.SubmissionInterval <= time.Duration(0) {
 		return errors.Wrapf(sdkerrors.ErrInvalidRequest, "submission interval must be greater than 0")
 	}
 
@@ -65,11 +65,11 @@ func (config BridgeConfig) ValidateWithNoAddrValidation() error {
 		return errors.Wrapf(sdkerrors.ErrInvalidRequest, "batch submitter must be set")
 	}
 
-	if config.FinalizationPeriod == time.Duration(0) {
+	if config.FinalizationPeriod <= time.Duration(0) {
 		return errors.Wrapf(sdkerrors.ErrInvalidRequest, "finalization period must be greater than 0")
 	}
 
-	if config.SubmissionInterval == time.Duration(0) {
+	if config.SubmissionInterval <= time.Duration(0) {
 		return errors.Wrapf(sdkerrors.ErrInvalidRequest, "submission interval must be greater than 0")
 	}
 
